@@ -136,3 +136,138 @@ Proof.
   destruct (content_length h) as [[m|]|] eqn:E; intros H; inversion H; subst.
   eapply content_length_nonneg; eauto.
 Qed.
+
+(* ------------------------------------------------------------------ *)
+(* keep-alive connection machine                                       *)
+(* ------------------------------------------------------------------ *)
+Lemma start_never_done cf cl s b s' r f0 : p_stage s = SStart f0 ->
+  http_step cf cl s b = Adv s' r -> is_done s' = false.
+Proof.
+  intros Hs H. unfold http_step, fail in H. rewrite Hs in H.
+  repeat match type of H with
+         | context [match ?x with _ => _ end] => destruct x eqn:?
+         | context [if ?x then _ else _] => destruct x eqn:?
+         end; try discriminate; inversion H; subst; reflexivity.
+Qed.
+
+Lemma ka_rank_le s : (ka_rank s <= 2)%nat.
+Proof. unfold ka_rank. destruct (p_stage s); lia. Qed.
+
+Lemma ka_step_dec cf : forall st b st' r, ka_step cf st b = Adv st' r -> (ka_mu st' r < ka_mu st b)%nat.
+Proof.
+  intros [s n] b [s2 n2] r H. unfold ka_step in H. cbn [fst snd] in H.
+  destruct (http_step cf false s b) as [s' r'| |] eqn:E; try discriminate.
+  pose proof (http_step_dec cf false _ _ _ _ E) as D. unfold http_mu in D.
+  unfold ka_mu. cbn [fst].
+  pose proof (ka_rank_le s2). pose proof (ka_rank_le s).
+  destruct (Nat.lt_ge_cases (length r') (length b)) as [Hlt|Hge].
+  - destruct (is_done s' && req_persisted s'); inversion H; subst; lia.
+  - (* nothing consumed: the step went from a non-terminal to a terminal stage *)
+    assert (T' : terminal (p_stage s') = true) by (destruct (terminal (p_stage s')); [reflexivity|destruct (terminal (p_stage s)); lia]).
+    assert (T : terminal (p_stage s) = false) by (destruct (terminal (p_stage s)); [rewrite T' in D; lia|reflexivity]).
+    assert (L : length r' = length b) by (rewrite T', T in D; lia).
+    destruct (is_done s' && req_persisted s') eqn:R; inversion H; subst.
+    + apply andb_true_iff in R. destruct R as [Rd _].
+      assert (K : ka_rank s = 2%nat).
+      { unfold ka_rank. destruct (p_stage s) eqn:Hs; try reflexivity; try discriminate T.
+        rewrite (start_never_done cf false s b s' r first Hs E) in Rd. discriminate. }
+      rewrite K, L. cbn. lia.
+    + assert (K' : ka_rank s2 = 0%nat) by (unfold ka_rank; destruct (p_stage s2); try discriminate T'; reflexivity).
+      assert (K : (1 <= ka_rank s)%nat) by (unfold ka_rank; destruct (p_stage s); try discriminate T; lia).
+      rewrite K', L. lia.
+Qed.
+
+Lemma ka_step_stable cf : forall st b st' r c,
+  ka_step cf st b = Adv st' r -> ka_step cf st (b ++ c) = Adv st' (r ++ c).
+Proof.
+  intros [s n] b st' r c H. unfold ka_step in *. cbn [fst snd] in *.
+  destruct (http_step cf false s b) as [s' r'| |] eqn:E; try discriminate.
+  rewrite (http_step_stable cf _ _ _ _ c E).
+  destruct (is_done s' && req_persisted s'); inversion H; reflexivity.
+Qed.
+
+Lemma ka_init_quiescent cf : quiescent (pst * nat) (ka_step cf) ka_init.
+Proof. intros s' r. cbn. discriminate. Qed.
+
+(* a whole keep-alive connection (any number of pipelined / successive requests, valid or not)
+   is split independent *)
+Lemma ka_split_independent cf : forall pieces,
+  ka_feed_all cf ka_init pieces = ka_feed cf ka_init (concat pieces).
+Proof.
+  intros. unfold ka_feed_all, ka_feed.
+  apply feed_all_concat; [apply ka_step_dec | apply ka_step_stable | apply ka_init_quiescent].
+Qed.
+
+Lemma ka_never_escapes k : ka_outcome k <> OEscapes.
+Proof. apply outcome_never_escapes. Qed.
+
+(* the connection is closed by the server exactly when its parser stopped for good: a failed
+   request, or a complete request that does not ask to keep the connection *)
+Lemma ka_closed_iff k : ka_closed k = true <->
+  (exists e, p_stage (fst (fst k)) = SFail e) \/ p_stage (fst (fst k)) = SDone.
+Proof.
+  unfold ka_closed, terminal. destruct (p_stage (fst (fst k))); split; intros H; try discriminate; eauto;
+    destruct H as [[e H]|H]; discriminate.
+Qed.
+
+(* ------------------------------------------------------------------ *)
+(* generic frame / projection                                          *)
+(* ------------------------------------------------------------------ *)
+Section ServerProofs.
+  Variables C E : Type.
+  Variable f : C -> E -> C.
+
+  Lemma gdeliver_other : forall srv i j e, i <> j ->
+    nth_error (gdeliver C E f i e srv) j = nth_error srv j.
+  Proof.
+    induction srv as [|c t IH]; intros i j e Hij; [destruct i; reflexivity|].
+    destruct i, j; cbn; try reflexivity; try congruence. apply IH. congruence.
+  Qed.
+
+  Lemma gdeliver_same : forall srv i e c, nth_error srv i = Some c ->
+    nth_error (gdeliver C E f i e srv) i = Some (f c e).
+  Proof.
+    induction srv as [|c0 t IH]; intros i e c H; [destruct i; discriminate|].
+    destruct i; cbn in *; [inversion H; reflexivity|apply IH; exact H].
+  Qed.
+
+  Lemma grun_projection : forall sched srv j c, nth_error srv j = Some c ->
+    nth_error (grun C E f sched srv) j = Some (fold_left f (events_for E j sched) c).
+  Proof.
+    induction sched as [|[i e] t IH]; intros srv j c H; [exact H|].
+    unfold grun in *. cbn [fold_left fst snd].
+    unfold events_for. cbn [filter fst]. destruct (Nat.eqb i j) eqn:Eq.
+    - apply Nat.eqb_eq in Eq. subst i. cbn [map snd fold_left]. apply IH. apply gdeliver_same. exact H.
+    - apply Nat.eqb_neq in Eq. apply IH. rewrite gdeliver_other by exact Eq. exact H.
+  Qed.
+End ServerProofs.
+
+(* keep-alive server: connection j's final state is the keep-alive parse of the concatenation of
+   its own receives, whatever the other connections did *)
+Lemma ka_server_own_bytes cf : forall sched srv j, nth_error srv j = Some ka_init ->
+  nth_error (grun ka_conn bytes (ka_deliver cf) sched srv) j
+  = Some (ka_feed cf ka_init (concat (events_for bytes j sched))).
+Proof.
+  intros sched srv j H. rewrite (grun_projection _ _ _ sched srv j ka_init H).
+  f_equal. apply (ka_split_independent cf).
+Qed.
+
+(* TLS: a failed handshake (or anything else) on connection i leaves every other connection as it was;
+   the failing connection itself is dropped and ignores whatever follows *)
+Lemma tls_dropped_stays cf : forall es c, fst c = Dropped -> fold_left (tls_deliver cf) es c = c.
+Proof.
+  induction es as [|e es IH]; intros c H; [reflexivity|]. cbn [fold_left].
+  assert (S : tls_deliver cf c e = c) by (unfold tls_deliver; rewrite H; reflexivity).
+  rewrite S. apply IH. exact H.
+Qed.
+
+Lemma tls_fail_drops cf c : fst c = Handshaking -> fst (tls_deliver cf c (TlsHandshake HsFail)) = Dropped.
+Proof. intros H. unfold tls_deliver. rewrite H. reflexivity. Qed.
+
+Lemma tls_fail_fold cf c es : fst c = Handshaking ->
+  fold_left (tls_deliver cf) (TlsHandshake HsFail :: es) c = (Dropped, snd c).
+Proof.
+  intros H. destruct c as [ph k]. cbn in H. subst ph. cbn [fold_left].
+  change (tls_deliver cf (Handshaking, k) (TlsHandshake HsFail)) with (Dropped, k).
+  apply tls_dropped_stays. reflexivity.
+Qed.
